@@ -11,6 +11,7 @@ import numpy as np
 from hypothesis import strategies as st
 
 from vlib.refsolve import Problem, prox_g
+from vlib import arrays as A_
 from vlib.runner import Part, R
 
 PROPERTY = "C13"
@@ -98,9 +99,14 @@ def st_gm(draw):
          "smin": draw(st.sampled_from([1.0, 0.3, 0.1, 1 / 30.0])), "g": draw(st.sampled_from(["none", "l1", "l2", "box"])),
          "mu": draw(st.sampled_from([0.05, 0.25, 1.0])), "c": draw(st.sampled_from([1.0, 1.0, 0.9, 0.5, 0.1])),
          "accelerate": draw(st.booleans()), "K": draw(st.sampled_from([20, 60, 150, 300])),
-         "start": draw(st.sampled_from(["zero", "rand", "rand", "optimum"])), "func": draw(st.booleans())}
+         "start": draw(st.sampled_from(["zero", "rand", "rand", "optimum"])), "func": draw(st.booleans()),
+         # memory layout of the caller's x; "alias": f = 1/2||x||^2 handed over as gradf = lambda v: v (returns its argument)
+         "layout": draw(st.sampled_from(["c", "c", "c", "strided", "revstride"])),
+         "alias": draw(st.sampled_from([False] * 7 + [True]))}
     if c["g"] == "box":
         c["cplx"] = False
+    if c["alias"]:
+        c["A"] = "identity"
     return c
 
 
@@ -115,6 +121,8 @@ def check_gm(case):
     dt = np.complex128 if cplx else np.float64
     Am = Am.astype(dt)
     y = (rng.standard_normal(m) + (1j * rng.standard_normal(m) if cplx else 0)).astype(dt)
+    if case.get("alias"):
+        y = np.zeros(m, dt)
     proxg, gkind, mu, z = make_g(sp, case, n, dt, rng)
     prob, ref = reference(Am, y, gkind, mu, z)
     r.label("g:" + case["g"], "accel" if case["accelerate"] else "plain", "A:" + case["A"], "start:" + case["start"])
@@ -133,8 +141,14 @@ def check_gm(case):
         x = (rng.standard_normal(n) + (1j * rng.standard_normal(n) if cplx else 0)).astype(dt)
         if gkind == "box":
             x = np.clip(x, -mu, mu)
+    x = A_.relayout(x, case.get("layout", "c"))
+    if case.get("layout", "c") != "c":
+        r.label("x-layout:" + case["layout"])
     x_passed = x
     gradf = (lambda v: Am.conj().T @ (Am @ v - y))
+    if case.get("alias"):
+        gradf = (lambda v: v)
+        r.label("gradf-returns-its-argument")
     pg = proxg if not case["func"] or proxg is None else (lambda a, v, _p=proxg: _p(a, v))
     alg = sp.alg.GradientMethod(gradf, x, alpha, proxg=pg, accelerate=case["accelerate"], max_iter=case["K"], tol=0)
     d0 = float(np.linalg.norm(x - xs) ** 2)
@@ -201,7 +215,8 @@ def st_pdhg(draw):
          "steps": draw(st.sampled_from(["scalar", "scalar", "array"])), "c": draw(st.sampled_from([1.0, 1.0, 0.8, 0.3])),
          "ratio": draw(st.sampled_from([1.0, 0.1, 10.0])),
          "accel": draw(st.sampled_from([None, None, "primal", "dual"])), "K": draw(st.sampled_from([20, 60, 150, 300])),
-         "start": draw(st.sampled_from(["zero", "rand", "rand", "saddle"])), "func": draw(st.booleans())}
+         "start": draw(st.sampled_from(["zero", "rand", "rand", "saddle"])), "func": draw(st.booleans()),
+         "layout": draw(st.sampled_from(["c", "c", "c", "strided", "revstride"]))}
     if c["g"] == "box":
         c["cplx"] = False
     if c["f"] == "l1":
@@ -278,6 +293,9 @@ def check_pdhg(case):
     else:
         x = (rng.standard_normal(n) + (1j * rng.standard_normal(n) if cplx else 0)).astype(dt)
         u = (rng.standard_normal(m) + (1j * rng.standard_normal(m) if cplx else 0)).astype(dt)
+    x, u = A_.relayout(x, case.get("layout", "c")), A_.relayout(u, case.get("layout", "c"))
+    if case.get("layout", "c") != "c":
+        r.label("xu-layout:" + case["layout"])
     x_passed, u_passed = x, u
     kw = {}
     gam = 0.0
